@@ -48,7 +48,8 @@ from pyrates.frontend.template.abc import AbstractBaseTemplate
 from pyrates.frontend.template.edge import EdgeTemplate
 from pyrates.frontend.template.node import NodeTemplate
 from pyrates.frontend.template.operator import OperatorTemplate
-from pyrates.ir.circuit import get_unique_label, CircuitIR, PyRatesException, PyRatesWarning
+from pyrates.ir.circuit import get_unique_label, CircuitIR, PyRatesException, PyRatesWarning, in_edge_indices, \
+    in_edge_vars
 from pyrates.ir.edge import EdgeIR
 from pyrates.ir.node import clear_ir_caches
 
@@ -781,6 +782,13 @@ class CircuitTemplate(AbstractBaseTemplate):
         if not edge_values:
             edge_values = {}
         scalar_shape = (1,) if vectorize else ()
+
+        # Every call builds a new intermediate representation from scratch.  The process-global IR caches only serve
+        # to merge structurally identical nodes WITHIN this call; whatever an earlier apply() (of this or of any other
+        # circuit, e.g. a get_run_func call with clear=False) left in them must not be extended or re-used.
+        clear_ir_caches()
+        in_edge_indices.clear()
+        in_edge_vars.clear()
 
         # turn nodes from templates into IRs
         ####################################
